@@ -173,6 +173,9 @@ def check_fs(case, rec):
         forms["in-place-sum"] = acc
         kw = dict(Counter(perm[half:]))
         forms["mixed-constructor"] = DaughtersDict(list(perm[:half]), **kw) if all(isinstance(k, str) and k not in ("iterable", "self") for k in kw) else DaughtersDict(list(perm))
+        if all(isinstance(k, str) and k not in ("iterable", "self") for k in kw):
+            forms["mixed-mapping-constructor"] = DaughtersDict(dict(Counter(perm[:half])), **kw)  # counts of a shared name add up
+            forms["mixed-string-constructor"] = DaughtersDict(" ".join(perm[:half]), **kw)
         if all(n in B._to_map for n in flat) and flat:
             forms["pdgids"] = DecayMode.from_pdgids(0.5, [int(B._to_map[n]) for n in perm]).daughters
     for how, dd in forms.items():
